@@ -247,6 +247,12 @@ def r4(ctx, rep):
                       file=impl["file"], line=impl["line"])
         elif head in insens:
             rep.ok(f"noframe:{impl['path']}", {"head": head}, nontrivial=False)
+        # ` OVER (..)` is appended to the whole text: a window-capable implementation must be one function call
+        if head in sens or head in insens:
+            single_call = (not a["top_ops"]) and toks[-1]["k"] == "punct" and toks[-1]["v"] == ")"
+            rep.check(single_call, f"over-target:{impl['path']}",
+                      f"`{impl['path']}` = `{impl['body']['raw']}` is used as a window function, but ` OVER (..)` is appended to the whole text: with a top-level operator after the call "
+                      f"the emitted SQL is `{impl['body']['raw']} OVER (..)`, which no dialect parses", file=impl["file"], line=impl["line"])
 
 
 def r5(ctx, rep):
@@ -342,6 +348,50 @@ def r6(ctx, rep):
     rep.check(any(b == O["both"] for a, b, c in calls_), "both", f"both bounds must be combined with {O['both']}", file=g["file"], line=arm1["l"], fn=g["path"])
 
 
+def r7(ctx, rep):
+    rep.rule("C04.R7", "a window range counts as 'not given' only when both bounds exist and start > end; computes are hoisted over take only when plain", floor=6)
+    syn = ctx.syn
+    f = syn.fn("transforms::range_is_empty", crate="prqlc")
+    m = tables.first_match(f)
+    rows = []
+    for arm in m["arms"]:
+        rows.append((show(arm["pat"]), show(arm["body"])))
+    rep.check(show(m["e"]) == "(&range.0, &range.1)" and rows == [("(Some(s), Some(e))", "(s > e)"), ("_", "false")], "range_is_empty",
+              f"an open bound is unbounded: only (Some(s), Some(e)) with s > e is the empty (= default, not given) range; found match {show(m['e'])} {rows}: "
+              "otherwise `window rows:1..` is silently replaced by the whole partition", file=f["file"], line=f["l"], fn=f["path"])
+    # the defaults in std.prql that mean "not given" are empty ranges under that definition
+    w = [d for d in ctx.std["std"] if d["path"] == "window"]
+    if w:
+        d = {p["name"]: p["default"] for p in w[0]["params"]}
+        ok = d.get("rows") == "0..-1" and d.get("range") == "0..-1" and d.get("rolling") == "0" and d.get("expanding") == "false"
+        rep.check(ok, "window-defaults", f"the defaults of `window` must be the 'not given' values (rows:0..-1, range:0..-1, rolling:0, expanding:false); found {d}", file=w[0]["file"], line=w[0]["line"])
+    else:
+        rep.bad("window-defaults", "std.prql does not declare `window`")
+    # reorder: a Compute may move in front of a Take only if it is plain (a window function over the taken rows
+    # is not the same as over all rows)
+    r = syn.fn("preprocess::reorder", crate="prqlc")
+    mm = None
+    for x in matches_of(r["body"]):
+        if show(x["e"]) == "prev":
+            mm = x
+    if mm is None:
+        raise AnchorMissing("reorder: match prev")
+    take_arms = [a for a in mm["arms"] if "Take" in show(a["pat"])]
+    ok = len(take_arms) == 1 and show(take_arms[0].get("guard")) == "(infer_complexity(compute) == Complexity::Plain)" and show(take_arms[0]["body"]) == "true"
+    rep.check(ok, "reorder:take", f"a compute may be hoisted above `take` only when it is Complexity::Plain; found guard {show(take_arms[0].get('guard')) if take_arms else None}: "
+              "a windowed compute evaluated before LIMIT sees all rows instead of the taken ones", file=r["file"], line=mm["l"], fn=r["path"])
+    wild = [a for a in mm["arms"] if pat_head(a["pat"]) == "_"]
+    rep.check(bool(wild) and show(wild[0]["body"]) == "false", "reorder:default", "by default a compute must not be moved across the preceding transform", file=r["file"], line=mm["l"], fn=r["path"])
+    allowed_true = [show(a["pat"]) for a in mm["arms"] if show(a["body"]) == "true"]
+    rep.check(sorted(allowed_true) == sorted(["Super(Sort(_))", "Super(Take(_))"]), "reorder:movable", f"computes may only be moved across Sort (always) and Take (plain only); arms returning true: {allowed_true}", file=r["file"], line=mm["l"], fn=r["path"])
+    # the complexity order the comparisons rely on
+    cx = syn.adt("Complexity", crate="prqlc")
+    order = tables.enum_variants(cx)
+    rep.check(order == ["Plain", "NonGroup", "Windowed", "Aggregation"], "complexity-order", f"derive(PartialOrd) order of Complexity must be Plain < NonGroup < Windowed < Aggregation; found {order}", file=cx["file"], line=cx["l"])
+    cm = syn.fn("anchor::can_materialize", crate="prqlc")
+    rep.check("let can_materialize = (complexity <= required)" in show_stmts(cm["body"], maxdepth=8), "can_materialize", "a compute may be materialised where its complexity does not exceed what the requirements allow", file=cm["file"], line=cm["l"], fn=cm["path"])
+
+
 def run(ctx, rep):
-    for r in (r1, r2, r3, r4, r5, r6):
+    for r in (r1, r2, r3, r4, r5, r6, r7):
         rep.guard(r, ctx)
